@@ -133,6 +133,10 @@ Theorem C09_check_sound : forall k s,
   claim_static k s = true -> C09_check k s (obs_of (compile probe_fs s)) = true.
 Proof. exact check_sound. Qed.
 Print Assumptions C09_check_sound.
+(* ... and for a builder with its own registrations (any function table): the raw form *)
+Theorem C09_check_sound_raw : forall fs s, C09_check KRaw s (obs_of (compile fs s)) = true.
+Proof. exact check_sound_raw. Qed.
+Print Assumptions C09_check_sound_raw.
 
 (* translator obligations (coq/Gen/GenTmpl.v is regenerated from /repo on every run) *)
 Fixpoint table_lookup (t : list (N * N)) (c : N) : N :=
